@@ -1,6 +1,135 @@
-pub fn gen(_seed: u64, _thorough: bool) -> Vec<String> {
-    vec![]
+//! C07: the memory limit bounds allocation.
+//!
+//! case lines (see lean/DdsModel/DdsModel/Drv/C07.lean):
+//!   full <fmt> <ch> <pr> <w> <h> <lim>   |   rect <fmt> <ch> <pr> <W> <H> <x> <y> <w> <h> <lim>
+//! `lim`: a number, `d` (default), `n` (need), `n-1`.
+//! implementation result: `<res> lim=<limit used> need=<observed need> peak=<measured peak> allocs=<count>`
+//! model result:          `<res> lim=<limit used> need=<model need> granted=<bytes handed to the allocator>`
+//! compared by tools/propcfg/C07.py as a refinement (observed need <= model need, peak <= granted + 4096).
+//!
+//! The decode runs on an intact synthetic stream; heap traffic of the calling thread is measured by
+//! the counting global allocator (`alloc_count.rs`); the output image is allocated before the
+//! measurement starts and the reader does not allocate.
+//!
+//! Oracle (implementation alone): measured peak <= memory_limit + 4096; the result is
+//! MemoryLimitExceeded iff memory_limit < observed need (bisection, `c06::observed_need`);
+//! with the default limit a full 4096x4096 decode succeeds.
+use crate::alloc_count;
+use crate::c06::{self, CallK, CallSpec, Chunk, FaultReader, FORMATS, REPRESENTATIVES};
+use crate::common::*;
+
+pub const SLACK: usize = 4096;
+
+pub fn run(line: &str) -> Option<(String, Vec<String>)> {
+    let t = toks(line);
+    let (spec, rest) = CallSpec::parse(&t)?;
+    if rest.len() != 1 {
+        return None;
+    }
+    let (out_len, pitch) = spec.out_layout(0)?;
+    let mut out = vec![0u8; out_len];
+    let need = c06::observed_need(&spec, &mut out, pitch);
+    let limit = c06::resolve_limit(rest[0], &spec, &mut out, pitch)?;
+    let bytes = spec.surface_bytes().unwrap_or(u64::MAX / 4);
+    let mut reader = FaultReader::new(0, bytes, None, false, Chunk::Full, 1);
+    reader.quiet = true;
+    let (res, m) = alloc_count::measure(|| spec.decode(&mut reader, &mut out, pitch, limit as usize));
+    let name = c06::res_name(&res);
+    drop(res);
+
+    let mut o = vec![];
+    if m.peak as u64 > limit.saturating_add(SLACK as u64) {
+        o.push(format!(
+            "peak heap use {} exceeds memory_limit {} + {} ({} allocations, {} bytes in total)",
+            m.peak, limit, SLACK, m.count, m.total
+        ));
+    }
+    let is_mem = name == "mem";
+    if is_mem != (limit < need) {
+        o.push(format!(
+            "result {name} with memory_limit {limit}, but the observed need (least limit without MemoryLimitExceeded) is {need}"
+        ));
+    }
+    if rest[0] == "d" {
+        if let CallK::Full { w: 4096, h: 4096 } = spec.call {
+            if name != "ok" {
+                o.push(format!("4096x4096 does not decode with the default limit: {name}"));
+            }
+        }
+    }
+    Some((format!("{name} lim={limit} need={need} peak={} allocs={}", m.peak, m.count), o))
 }
-pub fn run(_line: &str) -> Option<(String, Vec<String>)> {
-    None
+
+pub fn gen(seed: u64, thorough: bool) -> Vec<String> {
+    let mut rng = Rng::new(seed);
+    let mut v = vec![];
+    let lims = ["0", "1", "1024", "65536", "n-1", "n", "d"];
+    let sizes: Vec<(u32, u32)> = if thorough {
+        vec![(1, 1), (2, 2), (7, 5), (64, 64), (100, 31), (257, 129), (1024, 16), (16, 1024), (1000, 1000),
+             (65536, 1), (1, 65536), (4096, 2), (3, 4096), (16385, 3), (21846, 2)]
+    } else {
+        vec![(1, 1), (7, 5), (64, 64), (257, 129), (1024, 16), (16, 1024), (65536, 1), (1, 65536), (16385, 3)]
+    };
+    for (name, _) in FORMATS {
+        let (nc, np) = c06::natural_colour(name);
+        for &(w, h) in &sizes {
+            let mut calls = vec![format!("{w} {h}")];
+            // rects: interior, full-width strip, single pixel at the far corner
+            let (x, y) = (w / 3, h / 3);
+            calls.push(format!("{w} {h} {x} {y} {} {}", (w - x + 1) / 2, (h - y + 1) / 2));
+            calls.push(format!("{w} {h} 0 {} {w} {}", h / 2, (h - h / 2).min(5)));
+            calls.push(format!("{w} {h} {} {} 1 1", w - 1, h - 1));
+            for (i, c) in calls.iter().enumerate() {
+                let kind = if i == 0 { "full" } else { "rect" };
+                for lim in lims {
+                    let (ch, pr) = if rng.chance(1, 2) { (nc, np) } else { (rng.below(4) as u32, rng.below(3) as u32) };
+                    v.push(format!("{kind} {name} {ch} {pr} {c} {lim}"));
+                }
+            }
+        }
+    }
+    // larger surfaces for the representatives; 4096x4096 with the default limit
+    let big: &[(u32, u32)] = if thorough { &[(2048, 2048), (4096, 4096)] } else { &[(1024, 1024)] };
+    for name in REPRESENTATIVES {
+        let (nc, np) = c06::natural_colour(name);
+        for &(w, h) in big {
+            for lim in ["n-1", "n", "d"] {
+                v.push(format!("full {name} {nc} {np} {w} {h} {lim}"));
+                v.push(format!("rect {name} {nc} {np} {w} {h} 1 1 {} {} {lim}", w - 2, h - 2));
+            }
+        }
+    }
+    // every format at 4096x4096 with the default limit (also in the quick tier)
+    let four_k: Vec<&str> = FORMATS.iter().map(|(n, _)| *n).collect();
+    for name in four_k {
+        let (nc, np) = c06::natural_colour(name);
+        v.push(format!("full {name} {nc} {np} 4096 4096 d"));
+        if thorough {
+            v.push(format!("full {name} 0 0 4096 4096 d"));
+            v.push(format!("rect {name} {nc} {np} 4096 4096 0 0 4096 4096 d"));
+        }
+    }
+    // PRNG
+    let n = if thorough { 20000 } else { 2500 };
+    for _ in 0..n {
+        let (name, _) = rng.pick(FORMATS);
+        let m = *rng.pick(&[8u64, 40, 300, 1500]);
+        let w = 1 + rng.below(m) as u32;
+        let h = 1 + rng.below(m) as u32;
+        let (ch, pr) = (rng.below(4) as u32, rng.below(3) as u32);
+        let lim = match rng.below(6) {
+            0 => format!("{}", rng.below(200000)),
+            k => lims[k as usize + 1].to_string(),
+        };
+        if rng.chance(1, 2) {
+            v.push(format!("full {name} {ch} {pr} {w} {h} {lim}"));
+        } else {
+            let x = rng.below(w as u64) as u32;
+            let y = rng.below(h as u64) as u32;
+            let rw = 1 + rng.below((w - x) as u64) as u32;
+            let rh = 1 + rng.below((h - y) as u64) as u32;
+            v.push(format!("rect {name} {ch} {pr} {w} {h} {x} {y} {rw} {rh} {lim}"));
+        }
+    }
+    v
 }
